@@ -142,7 +142,7 @@ Init == /\ input \in Streams /\ level \in {0, 1}
         /\ lineStart = TRUE /\ pending = 0 /\ pass = 1 /\ first = <<>>
         /\ res = [accepted |-> TRUE, same |-> TRUE, idem |-> TRUE, dev |-> ""] /\ phase = "run"
 
-MCFormat == \E tt \in BOOLEAN, al \in BOOLEAN, dc \in BOOLEAN, gh \in BOOLEAN, kl \in BOOLEAN, wm \in BOOLEAN, gc \in BOOLEAN : Format([triple_trailing |-> tt, assign_like_command |-> al, dangling_continuation |-> dc, glued_hash_after_bracket |-> gh, keyword_led_argument |-> kl, with_macro_block |-> wm, glued_continuation |-> gc], TRUE)
+MCFormat == \E tt \in BOOLEAN, al \in BOOLEAN, dc \in BOOLEAN, gh \in BOOLEAN, kl \in BOOLEAN, wm \in BOOLEAN, gc \in BOOLEAN, mm \in BOOLEAN : Format([multiline_macro_in_block |-> mm, triple_trailing |-> tt, assign_like_command |-> al, dangling_continuation |-> dc, glued_hash_after_bracket |-> gh, keyword_led_argument |-> kl, with_macro_block |-> wm, glued_continuation |-> gc], TRUE)
 Next == Step \/ EndPass \/ (phase = "done" /\ phase' = "idle" /\ UNCHANGED <<input, pos, out, depth, macroFn, macroLine, subproc, lineStart, pending, level, pass, first, res>>) \/ MCFormat
 Spec == Init /\ [][Next]_vars
 
